@@ -1,2 +1,4 @@
+pub mod cmp;
+pub mod cmp_packet;
 pub mod entries;
 pub mod walk;
